@@ -95,27 +95,36 @@ deriving Repr
 /-- `Exts::from_single_dirs(left, right)`: `(right.val << 4) | (left.val & 0xf)` on `u8` -/
 def Exts.fromSingleDirs (l r : Exts) : Exts := ⟨((r.val <<< 4) % 256) ||| (l.val &&& 0xf)⟩
 
-/-- fold of the left path: `push_front(oriented.get(0))`, reduce the payload -/
-def leftFold {D} (T : Table D) (reduce : D → D → D) (path : List (Nat × Dir)) (seq0 : Seq) (d0 : D) : Option (Seq × D) :=
-  path.foldl (fun acc (p : Nat × Dir) =>
-    match acc, T[p.1]? with
-    | some (sq, dat), some e =>
-      let km := match p.2 with | .L => e.key | .R => rc e.key
-      match km.head? with
-      | some b => some (b :: sq, reduce dat e.data)
-      | none => none
-    | _, _ => none) (some (seq0, d0))
+/-- the k-mer of an entry as spelled along the left path (`Dir::Left => next_kmer, Dir::Right => next_kmer.rc()`) -/
+def orientL {D} (e : Entry D) (d : Dir) : Seq := match d with | .L => e.key | .R => rc e.key
+/-- … and along the right path (`Dir::Left => next_kmer.rc(), Dir::Right => next_kmer`) -/
+def orientR {D} (e : Entry D) (d : Dir) : Seq := match d with | .R => e.key | .L => rc e.key
 
-/-- fold of the right path: `push_back(oriented.get(K-1))`, reduce the payload -/
+/-- one step of the left-path loop: `push_front(oriented.get(0))`, reduce the payload -/
+def leftStep {D} (T : Table D) (reduce : D → D → D) (acc : Option (Seq × D)) (p : Nat × Dir) : Option (Seq × D) :=
+  match acc, T[p.1]? with
+  | some (sq, dat), some e =>
+    match (orientL e p.2).head? with
+    | some b => some (b :: sq, reduce dat e.data)
+    | none => none
+  | _, _ => none
+
+/-- fold of the left path -/
+def leftFold {D} (T : Table D) (reduce : D → D → D) (path : List (Nat × Dir)) (seq0 : Seq) (d0 : D) : Option (Seq × D) :=
+  path.foldl (leftStep T reduce) (some (seq0, d0))
+
+/-- one step of the right-path loop: `push_back(oriented.get(K-1))`, reduce the payload -/
+def rightStep {D} (T : Table D) (reduce : D → D → D) (acc : Option (Seq × D)) (p : Nat × Dir) : Option (Seq × D) :=
+  match acc, T[p.1]? with
+  | some (sq, dat), some e =>
+    match (orientR e p.2).getLast? with
+    | some b => some (sq ++ [b], reduce dat e.data)
+    | none => none
+  | _, _ => none
+
+/-- fold of the right path -/
 def rightFold {D} (T : Table D) (reduce : D → D → D) (path : List (Nat × Dir)) (seq0 : Seq) (d0 : D) : Option (Seq × D) :=
-  path.foldl (fun acc (p : Nat × Dir) =>
-    match acc, T[p.1]? with
-    | some (sq, dat), some e =>
-      let km := match p.2 with | .L => rc e.key | .R => e.key
-      match km.getLast? with
-      | some b => some (sq ++ [b], reduce dat e.data)
-      | none => none
-    | _, _ => none) (some (seq0, d0))
+  path.foldl (rightStep T reduce) (some (seq0, d0))
 
 /-- `build_node(seed_id)`: the node, the ids it consumed (left path reversed, seed, right path) and the
     remaining availability; `none` = the "unreachable" panic -/
